@@ -1234,9 +1234,20 @@ pub fn toggle_comment(rng: &mut Rng) -> String {
 /// targeted family: multi-line strings with arbitrary (over/under) indentation in various expression
 /// positions, inside child lines, followed by further tokens
 pub fn mls_family_case(rng: &mut Rng) -> String {
-    let q = if rng.chance(1, 5) { "\'\'\'\'\'" } else { "\'\'\'" };
-    let ind = " ".repeat(*rng.pick(&[0usize, 2, 4, 6, 10, 20, 40, 60]));
-    let nl = *rng.pick(&["\n", "\n", "\r\n"]);
+    let q = match rng.below(8) {
+        0 => "\'\'\'\'\'",
+        1 => "\'\'\'\'\'\'\'",
+        _ => "\'\'\'",
+    };
+    let unit = match rng.below(10) {
+        0 => "\t",
+        1 => "\u{3000}",
+        2 => "\u{1}",
+        3 => " \t",
+        _ => " ",
+    };
+    let ind = unit.repeat(*rng.pick(&[0usize, 2, 4, 6, 10, 20, 40, 60]));
+    let nl = *rng.pick(&["\n", "\n", "\n", "\r\n", "\r\n", "\r"]);
     let mut lit = String::new();
     lit.push_str(q);
     lit.push_str(nl);
@@ -1250,12 +1261,19 @@ pub fn mls_family_case(rng: &mut Rng) -> String {
             }
             2 => {
                 // short line: prefix of the indentation
-                lit.push_str(&ind[..ind.len() / 2]);
+                let mut h = ind.len() / 2;
+                while !ind.is_char_boundary(h) {
+                    h -= 1;
+                }
+                lit.push_str(&ind[..h]);
                 lit.push_str(nl);
             }
             _ => {
                 lit.push_str(&ind);
                 lit.push_str(&format!("text{}", i));
+                if rng.chance(1, 4) {
+                    lit.push_str(*rng.pick(&["  ", "\t", " \u{3000}"]));
+                }
                 lit.push_str(nl);
             }
         }
